@@ -799,7 +799,7 @@ void SmoothSegmentedFunction::getXControlPoints(
   mat.resize(_mXVec.size(), _mXVec.at(0).size());
 
   for(int i=0; i<_mXVec.size(); ++i) {
-    for(int j=0; j<_mXVec.size(); ++j) {
+    for(int j=0; j<_mXVec.at(i).size(); ++j) {
       mat(i,j) = _mXVec.at(i)[j];
     }
   }
@@ -811,7 +811,7 @@ void SmoothSegmentedFunction::getYControlPoints(
   mat.resize(_mYVec.size(), _mYVec.at(0).size());
 
   for(int i=0; i<_mYVec.size(); ++i) {
-    for(int j=0; j<_mYVec.size(); ++j) {
+    for(int j=0; j<_mYVec.at(i).size(); ++j) {
       mat(i,j) = _mYVec.at(i)[j];
     }
   }
